@@ -512,7 +512,7 @@ func checkC07Responses(p *Pkg, e *Env, r *res.Result) {
 		tg := targets[rapid.IntRange(0, len(targets)-1).Draw(t, "target")]
 		v, raw, g := genResponse(t, p, tg.info, tg.docs)
 		in.Respond = func(c *Call) reflect.Value { return v }
-		req := httptest.NewRequest(tg.op.Method, "http://h.example"+p.BasePath+concretePath(tg.op.Template), nil)
+		req := httptest.NewRequest(tg.op.Method, "http://h.example"+escapeForURL(p.BasePath+concretePath(tg.op.Template)), nil)
 		in.Reset()
 		rec, pan := in.Serve(req)
 		r.Evaluations++
@@ -651,7 +651,7 @@ func CheckC08(p *Pkg, e *Env, r *res.Result) {
 				bodyReader = BodyOfUnknownLength(text)
 				r.Label("http:body-of-unknown-length")
 			}
-			req := httptest.NewRequest(tg.Op.Method, "http://h.example"+p.BasePath+concretePath(tg.Op.Template), bodyReader)
+			req := httptest.NewRequest(tg.Op.Method, "http://h.example"+escapeForURL(p.BasePath+concretePath(tg.Op.Template)), bodyReader)
 			req.Header.Set("Content-Type", "application/json")
 			in.Reset()
 			_, pan := in.Serve(req)
